@@ -39,9 +39,9 @@ def membership(tab, scheme, flavour="lib"):
     flavour 'lib': side chain = protein-residue atoms whose name is not in {C, CA, N, O, HA, H}
                    (the library's documented predicate `Atom.is_sidechain`);
     flavour 'strict': additionally atoms named OXT/OT1/OT2/H1/H2/H3 (terminal carboxylate O, ammonium H) are not
-                   side chain (chemistry).  For the caps ACE/NME/NH2, which have no side chain at all and whose
-                   methyl hydrogens may carry the names H1-3, the documentation is silent: the caller accepts
-                   either flavour for them."""
+                   side chain (chemistry).  The contact docstring does not define "side chain" and the library
+                   predicate is pinned by tests/test_selection.py::test_sidechain, so the caller accepts either
+                   flavour and records which one the value matches."""
     out = []
     for r in tab["residues"]:
         ats = [tab["atoms"][i] for i in r["atoms"]]
